@@ -162,7 +162,8 @@ def render_upstream(v):
                         entries.append((f"{comp}/i18n/Translation-en{EXT[k]}", compress(data, k)))
             if cc["contents"]:
                 for a in [a for a in cc["arches"] if a != "all"]:
-                    entries.append((f"{comp}/Contents-{a}.gz", compress(f"usr/bin/x {comp}/{a}\n".encode(), "gz")))
+                    body = f"usr/bin/x {comp}\n" if cc.get("contents_identical") else f"usr/bin/x {comp}/{a}\n"
+                    entries.append((f"{comp}/Contents-{a}.gz", compress(body.encode(), "gz")))
         lines = [f"Origin: sim", f"Suite: {cn}", f"Codename: {cn}", f"Version: {v['serial']}"]
         if c["byhash"]:
             lines.append("Acquire-By-Hash: yes")
